@@ -7,7 +7,8 @@ rule `x{i:N; v: <expr>}`; hundreds of rules per compile; both output styles.
   (b) tie    : grass's printed text == text printed by the model of the code as it stands
   (c) direct : P̂ evaluated by the Lean driver on grass's own text: shape, correct rounding,
                re-read (`num check`), and — for comparisons / integer checks — agreement with the
-               specified tolerance-aware result (`num eval`, second answer).
+               tolerance-aware result (`num eval`, first answer = the code as it stands, proved
+               tolerance-aware by C07_lt_le_now; the second answer is the old exact-order variant).
 """
 import json
 import re
@@ -19,7 +20,6 @@ from vlib import Check, RunnerPool, compile_job, driver, hexs, unhex, log, known
 getcontext().prec = 60
 
 D15 = "D15-reread-11th-digit"
-D23 = "C07-exact-order"
 
 BIN = {"add": "+", "sub": "-", "mul": "*", "mod": "%", "eq": "==", "ne": "!=", "lt": "<", "le": "<=",
        "gt": ">", "ge": ">="}
@@ -245,9 +245,12 @@ def gen_case(rng, kind, hist):
 # minimised past failures and the witnesses of the known findings: run first on every run
 CORPUS = [
     ("L", "0.12345678904"),                                   # D15 (known): prints 0.123456789, which != it
-    ("B", "lt", ("L", "1"), ("L", "1.000000000001"), False),  # C07-ORD (known): < is exact although == is fuzzy
+    ("B", "lt", ("L", "1"), ("L", "1.000000000001"), False),  # C07-ORD (fixed da52790): < was exact although == is fuzzy
     ("B", "le", ("L", "1.000000000001"), ("L", "1"), False),
-    ("U", "nth3", ("L", "3.000000000001"), False),            # C07-ORD: range test exact, before the int check
+    ("B", "gt", ("L", "1.000000000001"), ("L", "1"), False),
+    ("B", "ge", ("L", "1"), ("L", "1.000000000001"), False),
+    ("U", "nth3", ("L", "-3.000000000001"), False),
+    ("U", "nth3", ("L", "3.000000000001"), False),            # C07-ORD (fixed ca51d14): range test was exact, before the int check
     ("L", "0.99999999999"),                                   # D5 (fixed): compressed printed 0
     ("L", "-0.99999999999"),
     ("L", "0.999999999949"),
@@ -429,10 +432,8 @@ def evaluate(ck, cases, pool, direct_only=False):
             fail, tags = None, []
             if o.startswith("status "):
                 fail = "compilation did not finish normally: " + o
-            elif o != spec and (top in CMP or top == "nth"):
-                fail = f"comparison / integer check disagrees with the tolerance-aware result {spec!r}"
-                if asfound != spec and o == asfound:
-                    tags = [D23]
+            elif o != asfound and (top in CMP or top == "nth"):
+                fail = f"comparison / integer check disagrees with the tolerance-aware result {asfound!r}"
             v = verdict.get((i, st))
             if v is not None and fail is None:
                 m = re.match(r"ok fin shape=(\d) round=(\d) reread=(\w) rereadX=(\d) d15=(\d) d15X=(\d) exact=(\d)", v)
@@ -458,7 +459,7 @@ def evaluate(ck, cases, pool, direct_only=False):
                     fail = "driver could not judge: " + v
             if fail:
                 failing.append({"source": f'@use "sass:math";\nx{{v: {src}}}', "style": st, "rpn": rpn(t),
-                                "impl_observation": o, "model_observation": asfound, "specified": spec,
+                                "impl_observation": o, "model_observation": asfound, "old_exact_order_variant": spec,
                                 "verdict": v, "expected_by_property": fail, "tags": tags, "size": size(t)})
     return failing
 
@@ -613,7 +614,7 @@ def replay(path):
     print("grass :", ans.get("status"), (ans.get("css") or ans.get("err", {}).get("message") or "").strip())
     if r.get("rpn"):
         m = driver([f"num eval {st} {' '.join(r['rpn'])}"])[0]
-        print("model :", " | ".join(dec_model(x) for x in m.split(" | ")), "   (as it stands | specified)")
+        print("model :", " | ".join(dec_model(x) for x in m.split(" | ")), "   (as it stands | old exact-order variant)")
         mt = RULE.search(ans.get("css") or "") or re.search(r"()v:\s*([^;}]*)", ans.get("css") or "")
         if mt and is_numeric_text(mt.group(2).strip()):
             print("P̂    :", driver([f"num check {st} {hexs(mt.group(2).strip())} {' '.join(r['rpn'])}"])[0])
